@@ -48,7 +48,10 @@ Section C13a.
       every offset [k] at which the source starts failing: either Decrypt
       returns an error and no reader, or the reader ends with an error that is
       not a clean end of stream, and what it released is a prefix of the
-      fault-free plaintext. *)
+      fault-free plaintext.  Guard: no custom identity panics (without it the
+      statement is false, AgeIOFacts.decrypt_read_faults_refuted; the
+      unguarded strongest form is AgeIOFacts.decrypt_read_faults_gen: a panic
+      of Decrypt is the panic of a custom identity). *)
   Theorem C13_decrypt_read_faults :
     forall (cs : nat) (ids : list identity) (file : bytes) (pieces caps : list nat)
            (eofdata : bool) (dflt k : nat),
@@ -56,6 +59,7 @@ Section C13a.
       (k <= length file)%nat ->
       (N.of_nat (length file) < ctr_limit) ->
       AeadLen P ->
+      (forall n, ~ In (IStub (Panic n)) ids) ->
       match decrypt_src P cs ids (mkSrc file pieces eofdata (Some k) EIo) caps dflt with
       | Ok (released, oc) =>
           oc <> CleanEOF /\
